@@ -100,8 +100,11 @@ def outer_kind(t):
     return t[0]
 
 
-def gen_scalar(rng, allow_union=True, rule_leaves=False, all_of=False):
+def gen_scalar(rng, allow_union=True, rule_leaves=False, all_of=False, one_of=False):
     r = rng.random()
+    if one_of and r > 0.92:
+        # exactly one of two conditions: one payload, two fault ids -- it passes iff exactly one of them is faulted
+        return ["xor", ["leaf"], ["leaf2"]]
     if all_of and r < 0.12:
         # both conditions of an '&' must hold: same payload, same origin, so one fault id decides both
         return ["and", rng.choice([["leaf"], ["rleaf"]]), ["rleaf"]]
